@@ -274,7 +274,13 @@ def evaluate(node, env, backend):
         for lb, s in zip(lab, spaces):
             if env.spaces.setdefault(lb, s) != s:
                 raise EvalError(f"label {lb} on axes of different spaces")
-        return base_array(key, spaces, tuple(lab))
+        arr = base_array(key, spaces, tuple(lab))
+        if len(set(lab)) != len(lab):
+            # by-label semantics: a label on two axes of one tensor addresses its diagonal
+            uniq = tuple(dict.fromkeys(lab))
+            shape, data = _sum_product([(arr.shape, arr.data)], [tuple(lab)], uniq)
+            arr = Arr(shape, data, uniq)
+        return arr
     if k == "call":
         name, args = node[1], node[2]
         if name == "sqrt":
